@@ -58,6 +58,9 @@ def do_replay(prop, path):
     elif rp.get("kind") == "redo_connections_bus":
         from vf.e1.flatten_jobs import replay_redo_bus
         viol, txt = replay_redo_bus(rp)
+    elif rp.get("kind") == "namemap":
+        from vf.e1.hier_jobs import replay_namemap
+        viol, txt = replay_namemap(rp)
     elif rp.get("kind") == "uniquify":
         from vf.e1.flatten_jobs import replay_uniquify
         viol, txt = replay_uniquify(rp)
